@@ -115,6 +115,9 @@ class AbsBuf:
     def resized(self):
         return [e for e in self.events if e[0] == "resize"]
 
+    def abstract_iter(self, fr, st):
+        BufIter(self, False).abstract_iter(fr, st)
+
 
 class SymRange:
     """range(lo, hi) with a symbolic bound, iterated over an abstract buffer."""
@@ -130,13 +133,40 @@ class SymRange:
         buf = bufs[0]
         if not isinstance(st.target, ast.Name):
             raise AnalysisError("engine B: loop target")
-        if st.orelse:
-            raise AnalysisError("engine B: for-else over an abstract buffer")
         # the iteration space must be exactly the buffer's index space
         if B.prove_eq0(Aff.of(self.lo)) is not True or B.prove_eq0(Aff.of(self.hi) - buf.L) is not True:
             raise ReachedLoop("engine B: loop bounds are not range(len(buffer)) at line %d" % st.lineno)
+        per_element_loop(fr, st, buf, {st.target.id: lambda: buf.idx})
+
+
+class BufIter:
+    """`for c in buf` / `for i, c in enumerate(buf)`: the same per-element loop, other targets."""
+
+    def __init__(self, buf, enumerated, start=0):
+        self.buf, self.enumerated, self.start = buf, enumerated, start
+
+    def abstract_iter(self, fr, st):
+        buf = self.buf
+        if self.enumerated:
+            t = st.target
+            if not (isinstance(t, ast.Tuple) and len(t.elts) == 2 and all(isinstance(x, ast.Name) for x in t.elts)):
+                raise AnalysisError("engine B: enumerate target at line %d" % st.lineno)
+            if B.prove_eq0(Aff.of(self.start)) is not True:
+                raise ReachedLoop("engine B: enumerate(buffer, start) with a non-zero start at line %d" % st.lineno)
+            binds = {t.elts[0].id: lambda: buf.idx, t.elts[1].id: lambda: buf.val}
+        else:
+            if not isinstance(st.target, ast.Name):
+                raise AnalysisError("engine B: loop target")
+            binds = {st.target.id: lambda: buf.val}
+        per_element_loop(fr, st, buf, binds)
+
+
+def per_element_loop(fr, st, buf, binds):
+    if True:
+        if st.orelse:
+            raise AnalysisError("engine B: for-else over an abstract buffer")
         assigned = _assigned_names(st.body)
-        carried = [n for n in assigned if n in fr.env and n != st.target.id]
+        carried = [n for n in assigned if n in fr.env and n not in binds]
         loop_id = "loop@%d" % st.lineno
         pre = {}
         for n in carried:
@@ -150,11 +180,14 @@ class SymRange:
                 pre[n] = fr.env[n]
             else:
                 raise AnalysisError("engine B: non-boolean loop-carried variable %s at line %d" % (n, st.lineno))
-        fr.env[st.target.id] = buf.idx
+        for name, get in binds.items():
+            fr.env[name] = get()
         try:
             fr.block(st.body)
-        except (_Break, _Continue):
-            raise AnalysisError("engine B: break/continue in a per-element loop at line %d" % st.lineno)
+        except _Continue:
+            pass  # ends this iteration only: the generic iteration is complete
+        except _Break:
+            raise AnalysisError("engine B: break in a per-element loop at line %d" % st.lineno)
         B.cur().events.append(("loop", loop_id, {n: (pre[n], fr.env.get(n)) for n in carried}))
         # after the loop the carried variables hold their final-iteration values: unknown
         for n in carried:
@@ -215,9 +248,17 @@ def content_independent(fn, buf_param, var):
         return False
 
     def visit(body, ctrl_tainted):
+        """-> set of escape kinds ('continue', 'break', 'return') taken under a content-dependent condition: what
+        follows them is control-dependent on the contents too."""
         nonlocal changed
+        esc = set()
         for st in body:
-            if isinstance(st, (ast.Assign, ast.AugAssign, ast.AnnAssign)):
+            if esc:
+                ctrl_tainted = True
+            if isinstance(st, (ast.Continue, ast.Break, ast.Return, ast.Raise)):
+                if ctrl_tainted:
+                    esc.add({ast.Continue: "continue", ast.Break: "break"}.get(type(st), "return"))
+            elif isinstance(st, (ast.Assign, ast.AugAssign, ast.AnnAssign)):
                 val = st.value
                 targets = st.targets if isinstance(st, ast.Assign) else [st.target]
                 t = val is not None and reads_contents(val) or ctrl_tainted
@@ -229,8 +270,8 @@ def content_independent(fn, buf_param, var):
                         changed = True
             elif isinstance(st, ast.If):
                 c = ctrl_tainted or reads_contents(st.test)
-                visit(st.body, c)
-                visit(st.orelse, c)
+                esc |= visit(st.body, c)
+                esc |= visit(st.orelse, c)
             elif isinstance(st, (ast.For, ast.While)):
                 c = ctrl_tainted or (reads_contents(st.iter) if isinstance(st, ast.For) else reads_contents(st.test))
                 if isinstance(st, ast.For) and c:
@@ -238,16 +279,24 @@ def content_independent(fn, buf_param, var):
                         if isinstance(n, ast.Name) and n.id not in tainted:
                             tainted.add(n.id)
                             changed = True
-                visit(st.body, c)
-                visit(st.orelse, c)
+                inner = visit(st.body, c)
+                if inner & {"break", "return"}:
+                    visit(st.body, True)  # later iterations run only if the contents allowed it
+                    inner |= visit(st.orelse, True)
+                else:
+                    inner |= visit(st.orelse, c)
+                esc |= inner & {"return"}
+                if "break" in inner:
+                    ctrl_tainted = True  # whether and when the loop was left depends on the contents
             elif isinstance(st, ast.Try):
-                visit(st.body, ctrl_tainted)
+                esc |= visit(st.body, ctrl_tainted)
                 for h in st.handlers:
-                    visit(h.body, ctrl_tainted)
-                visit(st.orelse, ctrl_tainted)
-                visit(st.finalbody, ctrl_tainted)
+                    esc |= visit(h.body, ctrl_tainted)
+                esc |= visit(st.orelse, ctrl_tainted)
+                esc |= visit(st.finalbody, ctrl_tainted)
             elif isinstance(st, ast.With):
-                visit(st.body, ctrl_tainted)
+                esc |= visit(st.body, ctrl_tainted)
+        return esc
 
     while changed:
         changed = False
